@@ -107,6 +107,11 @@ def sanity_check_format_result(formatted_text, original_text):
 
     o_tokens = _collapse_newline_tokens(original_tokens)
     f_tokens = _collapse_newline_tokens(formatted_tokens)
+    if len(o_tokens) != len(f_tokens):
+        return [
+            "BUG: Token count differs: {} in the original text vs {} in the "
+            "formatted text".format(len(o_tokens), len(f_tokens))
+        ]
     for i in range(len(o_tokens)):
         if (
             o_tokens[i].symbol != f_tokens[i].symbol
